@@ -7,7 +7,7 @@
 (***************************************************************************)
 EXTENDS Integers, Sequences, FiniteSets, TLC
 
-CONSTANTS PMode, NJobs, Scenario, ExitCode, EmitDup
+CONSTANTS PMode, NJobs, Scenario, ExitCode, EmitDup, Bug, Crash
 
 VARIABLES r_sl, r_wk, r_ldup, r_edup, r_shown, r_emitted, r_xflag, r_result, r_pipe, r_chst, r_phase, r_unm, r_nfm, r_exit, r_q, r_dv,
           p_sl, p_wk, p_ldup, p_edup, p_shown, p_emitted, p_xflag, p_result, p_pipe, p_chst, p_phase, p_unm, p_nfm, p_exit, p_q, p_dv
@@ -21,9 +21,11 @@ X(id, file) == [id |-> id, sev |-> "error", inc |-> FALSE, file |-> file, line |
 \* 1: two files sharing a header finding; global, local, header-inline and unmatched inline suppressions
 \* 2: three files; the same finding text from two files; a wildcard suppression; exit-code suppression
 \* 3: like 1 plus a file that returns early (duplicate list not cleared) and a library-dropped finding
+\* 4: a file-local command line suppression that matches a finding (the worker alone learns that it matched)
 Files == CASE Scenario = 1 -> <<"f1", "f2">>
            [] Scenario = 2 -> <<"f1", "f2", "f3">>
            [] Scenario = 3 -> <<"f1", "f2", "f3">>
+           [] Scenario = 4 -> <<"f1", "f2">>
 
 xh == X("hdr", "h")
 x1 == X("a", "f1")
@@ -34,10 +36,12 @@ xd == X("dupl", "h2")
 RawOf == CASE Scenario = 1 -> [f1 |-> <<xh, x1>>, f2 |-> <<x2, xh>>]
            [] Scenario = 2 -> [f1 |-> <<xd, x1>>, f2 |-> <<xd>>, f3 |-> <<x3, xd>>]
            [] Scenario = 3 -> [f1 |-> <<xh, x1, xh>>, f2 |-> <<x2, xh>>, f3 |-> <<x3>>]
+           [] Scenario = 4 -> [f1 |-> <<x1>>, f2 |-> <<x2>>]
 
 SupprInfo == [g  |-> [inl |-> FALSE, local |-> FALSE, wild |-> FALSE, line |-> -1],   \* --suppress=a
               w  |-> [inl |-> FALSE, local |-> FALSE, wild |-> TRUE,  line |-> -1],   \* --suppress=zzz:*.c
               l2 |-> [inl |-> FALSE, local |-> TRUE,  wild |-> FALSE, line |-> 7],    \* --suppress=b:f2:7 (other line)
+              lm |-> [inl |-> FALSE, local |-> TRUE,  wild |-> FALSE, line |-> -1],   \* --suppress=a:f1 (matches x1)
               ih |-> [inl |-> TRUE,  local |-> TRUE,  wild |-> FALSE, line |-> 3],    \* inline in the header
               i1 |-> [inl |-> TRUE,  local |-> TRUE,  wild |-> FALSE, line |-> 5],    \* inline in f1, matches nothing
               i3 |-> [inl |-> TRUE,  local |-> TRUE,  wild |-> FALSE, line |-> 2]]    \* inline in f3, matches x3
@@ -45,16 +49,19 @@ SupprInfo == [g  |-> [inl |-> FALSE, local |-> FALSE, wild |-> FALSE, line |-> -
 CmdKeys == CASE Scenario = 1 -> {"g", "l2"}
              [] Scenario = 2 -> {"w", "g"}
              [] Scenario = 3 -> {"g", "l2", "w"}
+             [] Scenario = 4 -> {"lm", "l2"}
 
 InlineOf == CASE Scenario = 1 -> [f1 |-> {"ih", "i1"}, f2 |-> {"ih"}]
               [] Scenario = 2 -> [f1 |-> {}, f2 |-> {}, f3 |-> {"i3"}]
               [] Scenario = 3 -> [f1 |-> {"ih", "i1"}, f2 |-> {"ih"}, f3 |-> {"i3"}]
+              [] Scenario = 4 -> [f1 |-> {}, f2 |-> {}]
 MarkOf == InlineOf
 
 ResOf(k, x) ==
   CASE k = "g"  -> IF x.id = "a" THEN "M" ELSE "C"
     [] k = "w"  -> IF x.file \in {"f1", "f2", "f3"} THEN "C" ELSE "N"
     [] k = "l2" -> "N"                                   \* other line: never consulted by a finding
+    [] k = "lm" -> IF x = x1 THEN "M" ELSE "N"
     [] k = "ih" -> IF x = xh THEN "M" ELSE "N"
     [] k = "i1" -> "N"
     [] k = "i3" -> IF x = x3 THEN "M" ELSE "N"
@@ -68,6 +75,7 @@ DummyOf(k, f) ==
 NoFailSet == IF Scenario = 2 THEN {x1} ELSE {}
 LibDrop == IF Scenario = 3 THEN {x2} ELSE {}
 EarlyExit == IF Scenario = 3 THEN {"f1"} ELSE {}
+CrashFiles == IF Crash THEN {"f2"} ELSE {}
 Threads == IF NJobs = 2 THEN {"t1", "t2"} ELSE {"t1", "t2", "t3"}
 
 R == INSTANCE RunDrive WITH Mode <- "single",
@@ -89,9 +97,20 @@ Spec == Init /\ [][Next]_<<rvars, pvars>>
 
 Range(s) == {s[i] : i \in DOMAIN s}
 
+Crashed == {p_chst[c].file : c \in {d \in DOMAIN p_chst : p_chst[d].eof \/ (p_chst[d].reaped /\ \E x \in Range(p_emitted) : x.id = "cppcheckError" /\ x.file = p_chst[d].file)}}
+RaisedBy(x) == {Files[i] : i \in {j \in DOMAIN Files : x \in Range(RawOf[Files[j]])}}
+
+\* C21 (design): a dying worker is contained
+Contained ==
+  (p_phase = "done" /\ Crashed # {}) =>
+     /\ \A f \in Crashed : \E x \in Range(p_emitted) : x.id = "cppcheckError" /\ x.file = f
+     /\ p_exit = ExitCode
+     /\ \A x \in Range(r_emitted) : (RaisedBy(x) \subseteq Crashed) \/ x \in Range(p_emitted)
+     /\ \A x \in Range(p_emitted) : x.id = "cppcheckError" \/ x \in Range(r_emitted)
+
 \* C15 (design): same findings, same unmatched-suppression reports, same exit status
 ParallelEqSingle ==
-  p_phase = "done" =>
+  (p_phase = "done" /\ Crashed = {}) =>
      /\ Range(p_emitted) = Range(r_emitted)
      /\ p_unm = r_unm
      /\ p_exit = r_exit
